@@ -1,18 +1,63 @@
 import Scalibr.Spec.Vulns
 namespace Scalibr.Vulns
 
+/-! ### the (version, kind) order: the code's comparator, the specification's order, and a numeric key -/
+
+/-- lexicographic (version, kind) as one number -/
+def key (e : Ev) : Nat := 3 * e.v + eventOrder e.k
+
+theorem evLt_iff (a b : Ev) : evLt a b = true ↔ key a < key b := by
+  unfold evLt key
+  cases a.k <;> cases b.k <;> simp [eventOrder] <;> omega
+
+theorem evLt_false_iff (a b : Ev) : evLt a b = false ↔ key b ≤ key a := by
+  have := evLt_iff a b
+  cases h : evLt a b <;> simp [h] at this ⊢ <;> omega
+
+/-- the code's tie-break is the specification's order of kinds on one version -/
+theorem evLt_eq_osvBefore : evLt = osvBefore := by
+  funext a b
+  unfold evLt osvBefore
+  cases a.k <;> cases b.k <;> simp [eventOrder, kindBefore]
+
+theorem sortEvents_eq_osvOrder (es : List Ev) : sortEvents es = osvOrder es := by
+  unfold sortEvents osvOrder; rw [evLt_eq_osvBefore]
+
+theorem osvBefore_iff (a b : Ev) : osvBefore a b = true ↔ key a < key b := by
+  rw [← evLt_eq_osvBefore]; exact evLt_iff a b
+
+/-! comparator facts: the precondition of `slices.SortFunc`, and: two events the comparator cannot separate are equal -/
+theorem evLt_asymm (a b : Ev) : evLt a b = true → evLt b a = false := by
+  rw [evLt_iff, evLt_false_iff]; omega
+theorem evLt_trans (a b c : Ev) : evLt b a = false → evLt c b = false → evLt c a = false := by
+  simp only [evLt_false_iff]; omega
+theorem evLt_sep (a b : Ev) : evLt a b = false → evLt b a = false → a = b := by
+  simp only [evLt_false_iff]
+  obtain ⟨ak, av⟩ := a
+  obtain ⟨bk, bv⟩ := b
+  unfold key
+  cases ak <;> cases bk <;> simp [eventOrder] <;> omega
+
+theorem key_v_le (a b : Ev) (h : key a < key b) : a.v ≤ b.v := by
+  obtain ⟨ak, av⟩ := a
+  obtain ⟨bk, bv⟩ := b
+  unfold key at h
+  cases ak <;> cases bk <;> simp [eventOrder] at h ⊢ <;> omega
+
+/-! ### the code's decision in recursive form -/
+
 /-- recursive form of the code's decision -/
 def dec (prev : Option Kind) : List Ev → Nat → Bool
   | [], _ => isIntro prev
   | e :: es, q => if e.v < q then dec (some e.k) es q
-                  else if e.v = q then (e.k = .intro || e.k = .last) else isIntro prev
+                  else if e.v = q then exactScan (e :: es) q else isIntro prev
 
 /-- index form with an explicit "event before the list" -/
 def codeDecisionP (prev : Option Kind) (es : List Ev) (q : Nat) : Bool :=
   let idx := idxOf es q
   let prevK := if idx = 0 then prev else (es[idx-1]?).map (·.k)
   match es[idx]? with
-  | some e => if e.v = q then (e.k = .intro || e.k = .last) else isIntro prevK
+  | some e => if e.v = q then exactScan (es.drop idx) q else isIntro prevK
   | none => isIntro prevK
 
 theorem codeDecision_eq_P (es : List Ev) (q : Nat) : codeDecision es q = codeDecisionP none es q := by
@@ -51,6 +96,8 @@ theorem codeDecisionP_eq_dec (prev : Option Kind) (es : List Ev) (q : Nat) :
       unfold codeDecisionP
       simp [hi]
 
+/-! ### the code's decision is the OSV loop on ordered well-formed events -/
+
 theorem foldl_gt (q : Nat) (es : List Ev) (acc : Bool) (h : ∀ e ∈ es, q < e.v) :
     es.foldl (step q) acc = acc := by
   induction es generalizing acc with
@@ -62,52 +109,137 @@ theorem foldl_gt (q : Nat) (es : List Ev) (acc : Bool) (h : ∀ e ∈ es, q < e.
     simp [List.foldl, this]
     exact ih acc (fun x hx => h x (by simp [hx]))
 
-theorem WFfrom_lb (ei : Bool) (lo : Nat) (es : List Ev) (h : WFfrom ei (some lo) es = true) :
-    ∀ e ∈ es, lo < e.v := by
+theorem WFfrom_lb (ei : Bool) (lo : Ev) (es : List Ev) (h : WFfrom ei (some lo) es = true) :
+    ∀ e ∈ es, key lo < key e := by
   induction es generalizing ei lo with
   | nil => intro e he; cases he
   | cons x xs ih =>
-    simp [WFfrom] at h
+    simp only [WFfrom, Bool.and_eq_true] at h
     obtain ⟨⟨h1, _⟩, h3⟩ := h
+    have h1' := (osvBefore_iff lo x).mp h1
     intro e he
     simp at he
     rcases he with rfl | he
-    · exact h1
-    · have := ih (!ei) x.v h3 e he; omega
+    · exact h1'
+    · have := ih (!ei) x h3 e he; omega
 
-theorem dec_eq_fold (prev : Option Kind) (lo : Option Nat) (es : List Ev) (q : Nat)
+theorem exactScan_cons_eq (e : Ev) (es : List Ev) (q : Nat) (h : e.v = q) :
+    exactScan (e :: es) q = (inclusive e || exactScan es q) := by
+  simp [exactScan, List.takeWhile, h]
+
+theorem exactScan_cons_ne (e : Ev) (es : List Ev) (q : Nat) (h : ¬ e.v = q) :
+    exactScan (e :: es) q = false := by
+  simp [exactScan, List.takeWhile, h]
+
+/-- after an `introduced` on the queried version the only further event of that version is its `last_affected` -/
+theorem exactScan_after_intro (e : Ev) (es : List Ev) (hk : e.k = .intro) (hlb : ∀ x ∈ es, key e < key x) :
+    es.takeWhile (fun x => x.v = e.v) = [] ∨ exactScan es e.v = true := by
+  cases es with
+  | nil => left; rfl
+  | cons x r =>
+    by_cases hx : x.v = e.v
+    · right
+      rw [exactScan_cons_eq x r e.v hx]
+      have := hlb x (by simp)
+      unfold key at this
+      rw [hk, hx] at this
+      have hxk : x.k = .last := by
+        cases hxk : x.k <;> simp [hxk, eventOrder] at this ⊢ <;> omega
+      simp [inclusive, hxk]
+    · left; simp [List.takeWhile, hx]
+
+/-- the OSV loop over ordered well-formed events none of which is below the queried version: it leaves the state alone
+when no event is on that version, and otherwise answers what the code's exact-hit loop answers -/
+theorem fold_ge (q : Nat) : ∀ (es : List Ev) (prev : Option Kind) (lo : Option Ev),
+    WFfrom (!isIntro prev) lo es = true → (∀ x ∈ es, q ≤ x.v) →
+    es.foldl (step q) (isIntro prev) =
+      if es.takeWhile (fun x => x.v = q) = [] then isIntro prev else exactScan es q := by
+  intro es
+  induction es with
+  | nil => intros; simp
+  | cons e rest ih =>
+    intro prev lo hwf hge
+    simp only [WFfrom, Bool.and_eq_true] at hwf
+    obtain ⟨⟨_, hk⟩, hrest⟩ := hwf
+    have hlb := WFfrom_lb _ e rest hrest
+    by_cases hq : e.v = q
+    · have htw : (e :: rest).takeWhile (fun x => x.v = q) ≠ [] := by simp [List.takeWhile, hq]
+      rw [if_neg htw, exactScan_cons_eq e rest q hq, List.foldl_cons]
+      cases hek : e.k with
+      | intro =>
+        have hp : isIntro prev = false := by cases hp : isIntro prev <;> simp_all
+        have hs : step q (isIntro prev) e = isIntro (some .intro) := by
+          unfold step; simp [hek, hq, isIntro]
+        rw [hs]
+        rw [hp] at hrest
+        have := ih (some .intro) (some e) (by simpa [isIntro] using hrest) (fun x hx => hge x (by simp [hx]))
+        rw [this]
+        rcases exactScan_after_intro e rest hek hlb with h | h
+        · rw [hq] at h; simp [h, isIntro, inclusive, hek]
+        · rw [hq] at h; simp [h, inclusive, hek, isIntro]
+      | fixed =>
+        have hp : isIntro prev = true := by cases hp : isIntro prev <;> simp_all
+        have hs : step q (isIntro prev) e = isIntro (some .fixed) := by
+          unfold step; simp [hek, hq, isIntro]
+        rw [hs]
+        rw [hp] at hrest
+        have := ih (some .fixed) (some e) (by simpa [isIntro] using hrest) (fun x hx => hge x (by simp [hx]))
+        rw [this]
+        by_cases h : rest.takeWhile (fun x => x.v = q) = []
+        · simp [h, isIntro, inclusive, hek, exactScan]
+        · simp [h, inclusive, hek]
+      | last =>
+        have hp : isIntro prev = true := by cases hp : isIntro prev <;> simp_all
+        have hs : step q (isIntro prev) e = true := by
+          unfold step; simp [hek, hq, hp]
+        rw [hs, foldl_gt q rest true]
+        · simp [inclusive, hek]
+        · intro x hx
+          have h3 : eventOrder x.k < 3 := by cases x.k <;> simp [eventOrder]
+          have hl : eventOrder Kind.last = 2 := rfl
+          have := hlb x hx
+          unfold key at this
+          rw [hek, hl] at this
+          omega
+    · have htw : (e :: rest).takeWhile (fun x => x.v = q) = [] := by simp [List.takeWhile, hq]
+      rw [if_pos htw]
+      apply foldl_gt
+      intro x hx
+      have he : q < e.v := by have := hge e (by simp); omega
+      rcases List.mem_cons.mp hx with rfl | hx
+      · exact he
+      · have := key_v_le e x (hlb x hx); omega
+
+theorem dec_eq_fold (prev : Option Kind) (lo : Option Ev) (es : List Ev) (q : Nat)
     (hwf : WFfrom (!isIntro prev) lo es = true) :
     dec prev es q = es.foldl (step q) (isIntro prev) := by
   induction es generalizing prev lo with
   | nil => simp [dec]
   | cons e es ih =>
-    simp only [WFfrom, Bool.and_eq_true] at hwf
-    obtain ⟨⟨_, hk⟩, hrest⟩ := hwf
-    have hgt : ∀ x ∈ es, e.v < x.v := WFfrom_lb _ e.v es hrest
-    simp only [dec, List.foldl]
     by_cases h1 : e.v < q
-    · simp only [h1, if_true]
+    · simp only [WFfrom, Bool.and_eq_true] at hwf
+      obtain ⟨⟨_, hk⟩, hrest⟩ := hwf
+      simp only [dec, List.foldl, h1, if_true]
       have hstep : step q (isIntro prev) e = isIntro (some e.k) := by
         unfold step isIntro; cases hek : e.k <;> simp <;> omega
       rw [hstep]
-      apply ih (some e.k) (some e.v)
+      apply ih (some e.k) (some e)
       have : (!isIntro (some e.k)) = (!(!isIntro prev)) := by
         cases hp : isIntro prev <;> simp [hp] at hk ⊢ <;> (cases hek : e.k <;> simp_all [isIntro])
       rw [this]; exact hrest
-    · simp only [h1, if_false]
+    · have hlb : ∀ x ∈ es, key e < key x := by
+        simp only [WFfrom, Bool.and_eq_true] at hwf
+        exact WFfrom_lb _ e es hwf.2
+      have hge : ∀ x ∈ e :: es, q ≤ x.v := by
+        intro x hx
+        rcases List.mem_cons.mp hx with rfl | hx
+        · omega
+        · have := key_v_le e x (hlb x hx); omega
+      rw [fold_ge q (e :: es) prev lo hwf hge]
+      simp only [dec, h1, if_false]
       by_cases h2 : e.v = q
-      · simp only [h2, if_true]
-        have hrest' : es.foldl (step q) (step q (isIntro prev) e) = step q (isIntro prev) e :=
-          foldl_gt q es _ (fun x hx => by have := hgt x hx; omega)
-        rw [hrest']
-        unfold step
-        cases hek : e.k <;> simp [h2]
-        · cases hp : isIntro prev <;> simp_all
-      · simp only [h2, if_false]
-        have hq : q < e.v := by omega
-        have h0 : step q (isIntro prev) e = isIntro prev := by unfold step; cases e.k <;> simp <;> omega
-        rw [h0]
-        exact (foldl_gt q es _ (fun x hx => by have := hgt x hx; omega)).symm
+      · simp [h2, List.takeWhile]
+      · simp [h2, List.takeWhile]
 
 theorem codeDecision_eq_osvScan (es : List Ev) (q : Nat) (h : WFsorted es = true) :
     codeDecision es q = osvScan es q := by
@@ -116,81 +248,65 @@ theorem codeDecision_eq_osvScan (es : List Ev) (q : Nat) (h : WFsorted es = true
   have := dec_eq_fold none none es q (by simpa [isIntro] using h)
   simpa [isIntro] using this
 
-/-! comparator facts: the precondition of `slices.SortFunc` -/
-theorem evLt_asymm (a b : Ev) : evLt a b = true → evLt b a = false := by
-  unfold evLt; simp; omega
-theorem evLt_trans (a b c : Ev) : evLt b a = false → evLt c b = false → evLt c a = false := by
-  unfold evLt; simp; omega
+/-! ### the OSV loop on ordered events is the order-free reading `osvDecl` — for every event list -/
 
-/-! ### the declarative reading (`osvDecl`) of the OSV evaluation loop -/
-
+/-- `c` closes whatever is open (the loop's view) -/
 def closes (q : Nat) (c : Ev) : Bool := (c.k = .fixed && c.v ≤ q) || (c.k = .last && c.v < q)
+
+/-- `c` closes the interval opened by `i` (the specification's view) -/
+def closesFor (i : Ev) (q : Nat) (c : Ev) : Bool :=
+  (c.k = .fixed && i.v < c.v && c.v ≤ q) || (c.k = .last && i.v ≤ c.v && c.v < q)
 
 /-- `osvDecl` with its two quantifiers over (possibly) different lists -/
 def declOn (all : List Ev) (q : Nat) (l : List Ev) : Bool :=
-  l.any fun i => i.k = .intro && i.v ≤ q && !(all.any fun c => i.v < c.v && closes q c)
+  l.any fun i => i.k = .intro && i.v ≤ q && !(all.any (closesFor i q))
 
 theorem osvDecl_eq (es : List Ev) (q : Nat) : osvDecl es q = declOn es q es := by
-  unfold osvDecl declOn closes; rfl
-
-/-- strictly increasing versions -/
-def Incr : Option Nat → List Ev → Prop
-  | _, [] => True
-  | lo, e :: es => (match lo with | none => True | some l => l < e.v) ∧ Incr (some e.v) es
-
-theorem incr_of_WFfrom : ∀ (ei : Bool) (lo : Option Nat) (es : List Ev), WFfrom ei lo es = true → Incr lo es
-  | _, _, [], _ => trivial
-  | ei, lo, e :: es, h => by
-    simp only [WFfrom, Bool.and_eq_true] at h
-    refine ⟨?_, incr_of_WFfrom (!ei) (some e.v) es h.2⟩
-    cases lo with
-    | none => trivial
-    | some l => simpa using h.1.1
-
-theorem incr_lb : ∀ (lo : Nat) (es : List Ev), Incr (some lo) es → ∀ c ∈ es, lo < c.v
-  | _, [], _, c, hc => by simp at hc
-  | lo, e :: es, h, c, hc => by
-    obtain ⟨h1, h2⟩ := h
-    simp only [] at h1
-    rcases List.mem_cons.mp hc with rfl | hc
-    · exact h1
-    · have := incr_lb e.v es h2 c hc; omega
+  unfold osvDecl declOn closesFor; rfl
 
 theorem any_congr_mem {α : Type} : ∀ (l : List α) (f g : α → Bool), (∀ x ∈ l, f x = g x) → l.any f = l.any g
   | [], _, _, _ => rfl
   | x :: xs, f, g, h => by
     rw [List.any_cons, List.any_cons, h x (by simp), any_congr_mem xs f g (fun y hy => h y (by simp [hy]))]
 
-/-- the fold over an increasing list, from any accumulated state -/
-theorem fold_eq_decl (q : Nat) : ∀ (lo : Option Nat) (es : List Ev) (acc : Bool), Incr lo es →
+/-- an `introduced` event `i` and a later event `c` in (version, kind) order: `c` closes `i`'s interval iff it closes at all -/
+theorem closesFor_of_before (i c : Ev) (q : Nat) (hi : i.k = .intro) (h : key i ≤ key c) :
+    closesFor i q c = closes q c := by
+  unfold closesFor closes
+  unfold key at h; rw [hi] at h
+  cases hc : c.k <;> simp [hc, eventOrder] at h ⊢ <;> (intros; omega)
+
+/-- an `introduced` event `i` is never closed by an event `e` before it in (version, kind) order, nor by itself -/
+theorem closesFor_of_after (i e : Ev) (q : Nat) (hi : i.k = .intro) (h : key e ≤ key i) :
+    closesFor i q e = false := by
+  unfold closesFor
+  unfold key at h; rw [hi] at h
+  cases he : e.k <;> simp [he, eventOrder] at h ⊢ <;> (intros; omega)
+
+/-- the loop over events in (version, kind) order, from any accumulated state -/
+theorem fold_eq_decl (q : Nat) : ∀ (es : List Ev) (acc : Bool), es.Pairwise (fun a b => key a ≤ key b) →
     es.foldl (step q) acc = (declOn es q es || (acc && !(es.any (closes q))))
-  | _, [], acc, _ => by simp [declOn]
-  | lo, e :: es, acc, h => by
-    obtain ⟨_, h2⟩ := h
-    have hlb := incr_lb e.v es h2
-    have ih := fold_eq_decl q (some e.v) es (step q acc e) h2
+  | [], acc, _ => by simp [declOn]
+  | e :: es, acc, h => by
+    obtain ⟨hlb, h2⟩ := List.pairwise_cons.mp h
+    have ih := fold_eq_decl q es (step q acc e) h2
     rw [List.foldl_cons, ih]
-    -- decompose the declarative reading of `e :: es`
-    have hself : (e.v < e.v) = False := by simp
     have hd : declOn (e :: es) q (e :: es) =
         ((e.k = .intro && e.v ≤ q && !(es.any (closes q))) || declOn es q es) := by
       unfold declOn
       rw [List.any_cons]
       congr 1
-      · -- for i = e: the closing event is in `es`, all of which are above `e`
-        congr 1
-        congr 1
-        rw [List.any_cons]
-        simp only [Nat.lt_irrefl, decide_false, Bool.false_and, Bool.false_or]
-        apply any_congr_mem
-        intro c hc
-        simp [hlb c hc]
-      · -- for i ∈ es: `e` is below `i`, so it cannot close
+      · -- for i = e: not closed by itself; the later events close it iff they close at all
+        by_cases hk : e.k = .intro
+        · rw [List.any_cons, closesFor_of_after e e q hk (Nat.le_refl _), Bool.false_or,
+            any_congr_mem es (closesFor e q) (closes q) (fun c hc => closesFor_of_before e c q hk (hlb c hc))]
+        · simp [hk]
+      · -- for i ∈ es: `e` comes before `i`, so it cannot close `i`'s interval
         apply any_congr_mem
         intro i hi
-        rw [List.any_cons]
-        have : ¬ i.v < e.v := by have := hlb i hi; omega
-        simp [this]
+        by_cases hk : i.k = .intro
+        · rw [List.any_cons, closesFor_of_after i e q hk (hlb i hi), Bool.false_or]
+        · simp [hk]
     rw [hd, List.any_cons]
     cases hk : e.k <;> simp only [step, hk, closes] <;>
       by_cases hq : e.v ≤ q <;> by_cases hq' : e.v < q <;>
@@ -198,11 +314,22 @@ theorem fold_eq_decl (q : Nat) : ∀ (lo : Option Nat) (es : List Ev) (acc : Boo
 
 theorem declOn_perm (q : Nat) (a b : List Ev) (h : a.Perm b) : declOn a q a = declOn b q b := by
   unfold declOn
-  have h1 : ∀ i : Ev, (a.any fun c => i.v < c.v && closes q c) = (b.any fun c => i.v < c.v && closes q c) :=
-    fun i => h.any_eq
+  have h1 : ∀ i : Ev, (a.any (closesFor i q)) = (b.any (closesFor i q)) := fun i => h.any_eq
   simp only [h1]
   exact h.any_eq
 
+theorem sortEvents_pairwise (es : List Ev) : (sortEvents es).Pairwise (fun a b => key a ≤ key b) := by
+  have := isort_pairwise evLt evLt_asymm evLt_trans es
+  refine this.imp ?_
+  intro a b h
+  exact (evLt_false_iff b a).mp h
+
+/-- the OSV loop over the ordered events = the order-free reading, for EVERY event list (well formed or not) -/
+theorem osvRange_eq_osvDecl (es : List Ev) (q : Nat) : osvRange es q = osvDecl es q := by
+  unfold osvRange osvScan
+  rw [← sortEvents_eq_osvOrder, osvDecl_eq, declOn_perm q es (sortEvents es) (isort_perm evLt es).symm,
+    fold_eq_decl q (sortEvents es) false (sortEvents_pairwise es)]
+  simp
 
 /-! ### sorting with two comparators that agree on the list; sorting commutes with a key map -/
 
